@@ -101,8 +101,11 @@ impl Timer {
                 #[trigger] call_ensures(callback, (old(self).dl()->Some_0, m0), a) && match a {
                     TimeoutAction::Drop => r == Ok::<PostAction, std::io::Error>(PostAction::Remove) && final(self).dl() == old(self).dl(),
                     TimeoutAction::ToInstant(i) => r == Ok::<PostAction, std::io::Error>(PostAction::Continue) && final(self).dl() == Some(i),
+                    // a relative reschedule counts from a FRESH clock read (never from the old deadline: a late delivery must not
+                    // make the next firing early)
                     TimeoutAction::ToDuration(d) => (r == Ok::<PostAction, std::io::Error>(PostAction::Remove) && final(self).dl() is None)
-                        || (r == Ok::<PostAction, std::io::Error>(PostAction::Continue) && final(self).dl() is Some),
+                        || (r == Ok::<PostAction, std::io::Error>(PostAction::Continue) && (final(self).dl() matches Some(x)
+                                && exists|now: Instant| #[trigger] clock_read(now) && nanos(x) == nanos(now) + dur_ns(d))),
                 },
 //@ enditem
 //@ item src/sources/timer.rs / impl EventSource for Timer / fn register props=C05
